@@ -16,6 +16,7 @@ from adeu.utils.docx import (
     iter_block_items,
     iter_document_parts,
     iter_paragraph_content,
+    normalize_docx,
 )
 
 logger = structlog.get_logger(__name__)
@@ -36,6 +37,9 @@ def extract_text_from_stream(file_stream: io.BytesIO, filename: str = "document.
         # Ensure stream is at start
         file_stream.seek(0)
         doc = Document(file_stream)
+        # Read the same run structure the RedlineEngine indexes (it normalizes on load),
+        # so that offsets in the extracted text address the same characters on write.
+        normalize_docx(doc)
 
         comments_mgr = CommentsManager(doc)
         comments_map = comments_mgr.extract_comments_data()
